@@ -21,7 +21,8 @@ ASSUMPTIONS = ["parameters are positional-or-keyword (the supported subset); lit
 
 NAMES = ["a", "b", "c", "d"]
 # ints, bools and floats that compare equal in Python (1 == 1.0 == True) are different bindings for dds (bool = int only)
-VALUES = [0, 1, "", "a", None, False, True, 2, "__none__", 1.0, 0.0, 2.0, 1.5]
+# ... and two strings that are different values but the same text after Unicode normalisation
+VALUES = [0, 1, "", "a", None, False, True, 2, "__none__", 1.0, 0.0, 2.0, 1.5, "caf\u00e9", "cafe\u0301"]
 DEFAULTS = [0, "", False, None, 1, "a", 1.0, 0.0]
 
 
@@ -147,6 +148,11 @@ def run(ctx):
             i = rng.randrange(n)
             b0[i] = rng.choice([v for v in VALUES if doc_key(v) != doc_key(b0[i])])
             bindings.append(b0)
+            # two bindings that differ, in one parameter, by strings that a text normalisation would identify
+            for tw in ("caf\u00e9", "cafe\u0301"):
+                bt = list(bindings[0])
+                bt[i] = tw
+                bindings.append(bt)
             uniq, seen_b = [], set()
             for b in bindings:
                 kb = repr(b)               # type-aware: [1], [1.0] and [True] are three bindings
